@@ -191,7 +191,9 @@ def run_unit(unit, pid, tier, jobs, timeout_s, only=None):
         os.remove(out_json)
     cmd = kani_cmd(unit, fq, jobs, timeout_s, out_json)
     wall_cap = unit.get("wall_cap_s", 3600 if tier == "quick" else 4 * 3600)
-    rc, out, secs = sh(cmd, cwd=d, timeout=wall_cap)
+    # address-space cap per process (inherited by every cbmc): a query that wants more is reported as
+    # inconclusive instead of taking the machine down (16 harnesses run in parallel on 62 GB)
+    rc, out, secs = sh(cmd, cwd=d, timeout=wall_cap, mem_gb=float(os.environ.get("VERIF_MEM_GB", "16")))
     logf = os.path.join(WORK, "kani-%s-%s.log" % (unit["name"], pid))
     with open(logf, "w") as fh:
         fh.write(" ".join(cmd) + "\n" + out)
@@ -285,21 +287,8 @@ def run_unit(unit, pid, tier, jobs, timeout_s, only=None):
 # counterexample extraction and native replay
 # ---------------------------------------------------------------------------------------------
 
-def extract_counterexample(unit, d, fq_name, pid):
-    """Re-run one failed harness with concrete playback; returns path of the replay file."""
-    cmd = ["cargo", "kani", "--target-dir", os.path.join(WORK, "kani-" + unit["name"]),
-           "--output-format", "terse", "-Z", "concrete-playback", "--concrete-playback=print",
-           "-Z", "unstable-options", "--no-assertion-reach-checks",
-           "--exact", "--harness", fq_name]
-    for z in unit.get("kani_z", []):
-        cmd += ["-Z", z]
-    cmd += unit.get("kani_args", [])
-    cbmc = unit.get("cbmc_args", [])
-    if cbmc:
-        cmd += ["--cbmc-args"] + cbmc
-    rc, out, secs = sh(cmd, cwd=d, timeout=3600)
-    # Kani prints one unit test per failed check *and* per satisfied cover; take the first block
-    # that belongs to a failed check (not a cover witness).
+def parse_playback_blocks(out):
+    """Kani prints one unit test per failed check and per satisfied cover: [(kind, desc, values, comments)]."""
     blocks = []
     cur = None
     last_comment = None
@@ -328,6 +317,40 @@ def extract_counterexample(unit, d, fq_name, pid):
                 continue
             if s.startswith("];"):
                 cur["open"] = False
+    return blocks
+
+
+def playback_cmd(unit, fq_name):
+    cmd = ["cargo", "kani", "--target-dir", os.path.join(WORK, "kani-" + unit["name"]),
+           "--output-format", "terse", "-Z", "concrete-playback", "--concrete-playback=print",
+           "-Z", "unstable-options", "--no-assertion-reach-checks",
+           "--exact", "--harness", fq_name]
+    for z in unit.get("kani_z", []):
+        cmd += ["-Z", z]
+    cmd += unit.get("kani_args", [])
+    cbmc = unit.get("cbmc_args", [])
+    if cbmc:
+        cmd += ["--cbmc-args"] + cbmc
+    return cmd
+
+
+def witness_sample(unit, d, fq_name):
+    """One concrete input per satisfied cover witness of a verified harness (solver model, decoded by
+    Kani's concrete playback): an actual case of the class the harness quantifies over."""
+    rc, out, secs = sh(playback_cmd(unit, fq_name), cwd=d, timeout=900)
+    res = []
+    for b in parse_playback_blocks(out):
+        if b["kind"] == "cover":
+            res.append({"harness": fq_name, "witness_of": b["desc"],
+                        "symbolic_inputs_in_draw_order": [c for c in b["comments"]],
+                        "n_draws": len(b["vals"])})
+    return res
+
+
+def extract_counterexample(unit, d, fq_name, pid):
+    """Re-run one failed harness with concrete playback; returns path of the replay file."""
+    rc, out, secs = sh(playback_cmd(unit, fq_name), cwd=d, timeout=3600)
+    blocks = parse_playback_blocks(out)
     chosen = None
     for b in blocks:
         if b["kind"] != "cover":
@@ -443,6 +466,8 @@ def write_evidence(pid, tier, seed, spec, all_results, metas, wall, violations, 
             "covers_satisfied": h.get("covers_satisfied"),
             "cbmc_s": h.get("duration_s"),
         })
+    if extra and extra.get("solver_witnesses"):
+        samples = [w for w in extra["solver_witnesses"] if "harness" in w][:3] + samples
     ev = {
         "property_id": pid,
         "tier": tier,
@@ -525,6 +550,7 @@ def main():
             log("[%s] unit %s: %s\n%s" % (pid, unit["name"], meta["error"], meta.get("tail", "")))
 
     known = load_known()
+    reproduced_findings = {}
     violations = 0
     inconclusive = []
     known_hits = []
@@ -537,6 +563,16 @@ def main():
             r.get("why", "")))
         if st in ("inconclusive", "vacuous"):
             inconclusive.append(n)
+        elif st == "failed" and match_known(known, pid, n, r["failed"]) is not None and all(
+                e["id"] in reproduced_findings for e in match_known(known, pid, n, r["failed"])):
+            # every failed assertion carries the marker of a finding whose input class was already
+            # extracted and reproduced natively in this run (by another harness): no second replay
+            es = match_known(known, pid, n, r["failed"])
+            r["status"] = "known_finding"
+            r["replay_file"] = reproduced_findings[es[0]["id"]]
+            r["why"] = "same finding as reproduced by " + os.path.basename(r["replay_file"])
+            for e in es:
+                known_hits.append((e, n))
         elif st == "failed":
             unit = unit_of[n]
             d = crate_dir(unit) if unit["kind"] == "external" else os.path.join(WORK, "shadow", unit["shadow"]["name"])
@@ -562,6 +598,7 @@ def main():
             if es is not None:
                 r["status"] = "known_finding"
                 for e in es:
+                    reproduced_findings.setdefault(e["id"], path)
                     if not any(e is k for k, _ in known_hits):
                         log("KNOWN-FINDING: property=%s %s" % (pid, e["what"]))
                     known_hits.append((e, n))
@@ -572,10 +609,23 @@ def main():
                 log("    failed checks: %s" % "; ".join(d[0] for d in r["failed"][:4]))
                 log("    native replay: %s" % r["native_panic"])
 
+    # one decoded solver witness (a concrete input of a class) for the evidence samples
+    witnesses = []
+    cands = [(r.get("duration_s") or 1e9, n) for n, r in all_results.items()
+             if r.get("status") == "verified" and (r.get("covers_satisfied") or 0) > 0]
+    if cands and not args.only:
+        _, n = min(cands)
+        unit = unit_of[n]
+        d = crate_dir(unit) if unit["kind"] == "external" else os.path.join(WORK, "shadow", unit["shadow"]["name"])
+        try:
+            witnesses = witness_sample(unit, d, n)
+        except Exception as e:  # evidence nicety only
+            witnesses = [{"error": str(e)}]
     wall = time.time() - t0
     write_evidence(pid, tier, seed, spec, all_results, metas, wall, violations,
                    extra={"known_findings_hit": sorted(set(e["id"] for e, _ in known_hits)),
-                          "inconclusive": inconclusive})
+                          "inconclusive": inconclusive,
+                          "solver_witnesses": witnesses})
     for l in viol_lines:
         log(l)
     if violations:
